@@ -560,14 +560,25 @@ def diff_lines(a, b, limit=5):
     return out
 
 
-def run_lines(exe, lines, timeout=600, env=None, prefix=()):
-    """feed one case per line to a line-oriented driver; returns list of output lines (same length)"""
-    data = ("\n".join(lines) + "\n").encode()
-    rc, out, err = sh(list(prefix) + [exe], input=data, timeout=timeout, env=env, big_stack=True)
-    res = out.split("\n")
-    if res and res[-1] == "":
-        res.pop()
-    if rc != 0 or len(res) != len(lines):
-        # the driver died: attribute to the first case without an answer
-        res = res + ["DRIVER-DIED rc=%d %s" % (rc, err.strip()[-300:].replace("\n", " | "))] + ["<no answer>"] * (len(lines) - len(res) - 1)
-    return res[:len(lines)]
+def run_lines(exe, lines, timeout=600, env=None, prefix=(), restarts=0):
+    """feed one case per line to a line-oriented driver; returns list of output lines (same length).  When the driver dies, the
+    first case without an answer gets `DRIVER-DIED ...` and the cases after it are fed to a fresh process (up to `restarts` times),
+    so that one crashing case does not take the verdicts of the others with it (for stateless drivers: the default restarts=0 is for a
+    session-oriented driver whose later lines depend on earlier ones)."""
+    out_all = []
+    todo = list(lines)
+    while True:
+        data = ("\n".join(todo) + "\n").encode()
+        rc, out, err = sh(list(prefix) + [exe], input=data, timeout=timeout, env=env, big_stack=True)
+        res = out.split("\n")
+        if res and res[-1] == "":
+            res.pop()
+        if rc == 0 and len(res) == len(todo):
+            return out_all + res
+        res = res[:len(todo)]
+        died = "DRIVER-DIED rc=%d %s" % (rc, err.strip()[-300:].replace("\n", " | "))
+        if restarts <= 0 or len(res) + 1 >= len(todo):
+            return (out_all + res + [died] + ["<no answer>"] * (len(todo) - len(res) - 1))[:len(lines)]
+        out_all += res + [died]
+        todo = todo[len(res) + 1:]
+        restarts -= 1
